@@ -8,6 +8,13 @@ use std::cmp::Ordering;
 
 pub const MAX_SCALE: u32 = 28;
 
+// The format is a parameter exactly as in spec/DecSem.tla (P digits of coefficient, S places): rust_decimal's 96 bits / 28 places
+// by default, the specification's toy format while its vectors are replayed (ref-selftest).
+thread_local! { static FORMAT: std::cell::RefCell<Option<(BigInt, u32)>> = std::cell::RefCell::new(None); }
+pub fn set_toy_format(p: u32, s: u32) { FORMAT.with(|f| *f.borrow_mut() = Some((BigInt::pow10(p).sub(&BigInt::from_u64(1)), s))); }
+pub fn set_real_format() { FORMAT.with(|f| *f.borrow_mut() = None); }
+pub fn max_scale() -> u32 { FORMAT.with(|f| f.borrow().as_ref().map_or(MAX_SCALE, |x| x.1)) }
+
 #[derive(Clone, Debug, PartialEq)]
 pub enum DV {
     /// exactly c / 10^s
@@ -18,7 +25,7 @@ pub enum DV {
     Approx(f64),
 }
 
-pub fn dec_max() -> BigInt { BigInt::parse("79228162514264337593543950335").unwrap() }
+pub fn dec_max() -> BigInt { FORMAT.with(|f| f.borrow().as_ref().map(|x| x.0.clone())).unwrap_or_else(|| BigInt::parse("79228162514264337593543950335").unwrap()) }
 
 pub fn dec_from_str(t: &str) -> Option<DV> {
     let (neg, t) = if let Some(r) = t.strip_prefix('-') { (true, r) } else { (false, t) };
@@ -52,7 +59,7 @@ pub fn classify(c: &BigInt, s: u32) -> R<DV> {
         if twice_excess.cmp(&BigInt::pow10(sm)) == Ordering::Less { return Err(Stop::Unspec("DecimalRangeEdge")); }
         return Err(Stop::Err("outside the Decimal range"));
     }
-    if sm > MAX_SCALE { return Err(Stop::Unspec("DecimalScaleBeyond28")); }
+    if sm > max_scale() { return Err(Stop::Unspec("DecimalScaleBeyond28")); }
     if cm.abs().cmp(&dec_max()) == Ordering::Greater { return Err(Stop::Unspec("DecimalCoefficientBeyond96Bits")); }
     Ok(DV::Dec { c: cm, s: sm })
 }
@@ -85,7 +92,7 @@ impl DecSem {
     fn quotient(&self, n: BigInt, d: BigInt) -> R<DV> {
         // exact when the expansion terminates within 28 places
         if d.is_zero() { return Err(Stop::Err("division by zero")); }
-        for k in 0..=MAX_SCALE {
+        for k in 0..=max_scale() {
             let (q, r) = n.mul(&BigInt::pow10(k)).divrem(&d);
             if r.is_zero() { return classify(&q, k); }
         }
